@@ -62,6 +62,17 @@ def build_snapshot(shape, rng):
         attrs['seq'] = ['x', 'y']
         attrs['by'] = b'bytes'
     if a == 'awkward':
+        import enum
+        import http
+
+        class Kilo(float):
+            pass
+
+        class Label(str):
+            pass
+        # values that ARE an int / float / str (instances of subclasses: IntEnum members, HTTPStatus, numpy-style floats)
+        attrs.update({'status': http.HTTPStatus.NOT_FOUND, 'level': enum.IntEnum('Level', 'LOW HIGH').HIGH,
+                      'weight': Kilo(2.5), 'tag': Label('blue')})
         attrs.update({'seq_none': ['x', None, 'y'], 'none_first': [None, 'z'], 'big': 2 ** 63, 'bigger': 2 ** 70,
                       'small': -(2 ** 63) - 1, 'edge': 2 ** 63 - 1, 'edge_neg': -(2 ** 63)})
     if attrs:
@@ -82,6 +93,11 @@ def any_value(v):
 
 
 def expect_value(v):
+    if type(v) not in (bool, str, int, float, bytes, list, tuple, type(None)):
+        # an instance of a subclass of a scalar type is carried as that scalar
+        for base in (bool, str, int, float, bytes):
+            if isinstance(v, base):
+                return expect_value(base(v))
     if isinstance(v, bool):
         return ('bool_value', v)
     if isinstance(v, str):
